@@ -45,6 +45,7 @@ func runSim(t *testing.T, s *Sched, body func()) (out simOutcome) {
 		}
 	}()
 	synctest.Test(t, func(t *testing.T) {
+		simrt.ProbeReset()
 		simrt.Start(schedConfig(s))
 		func() {
 			defer func() {
